@@ -41,6 +41,7 @@ func main() {
 	repo := flag.String("repo", "/repo", "repository root")
 	out := flag.String("out", ".", "output directory")
 	pkgs := flag.String("pkgs", defaultPkgs, "comma separated list of <package dir relative to repo>=<name>")
+	groups := flag.String("groups", defaultGroups, "comma separated list of <name>=<dir>+<dir>+...: packages analysed as one unit (group.go)")
 	flag.Parse()
 	if err := os.MkdirAll(*out, 0o755); err != nil {
 		fatal(err)
@@ -63,6 +64,24 @@ func main() {
 			fatal(err)
 		}
 		fmt.Printf("locks: %s: %d locks, %d edges, %d unbalanced -> %s\n", dir, len(a.locks), len(a.edgeOrder), len(a.unbalancedOrder), path)
+	}
+	for _, spec := range strings.Split(*groups, ",") {
+		spec = strings.TrimSpace(spec)
+		name, dirs, ok := strings.Cut(spec, "=")
+		if spec == "" || !ok {
+			continue
+		}
+		qualifyNames = true
+		a, err := analyseGroup(*repo, strings.Split(dirs, "+"))
+		if err != nil {
+			fatal(fmt.Errorf("group %s: %w", name, err))
+		}
+		path := filepath.Join(*out, "LockGraph_"+name+".v")
+		if err := os.WriteFile(path, []byte(a.renderGroup(name)), 0o644); err != nil {
+			fatal(err)
+		}
+		qualifyNames = false
+		fmt.Printf("locks: group %s (%s): %d locks, %d edges, %d unbalanced -> %s\n", name, dirs, len(a.locks), len(a.edgeOrder), len(a.unbalancedOrder), path)
 	}
 }
 
@@ -147,6 +166,8 @@ type analyzer struct {
 	unbalanced      map[[2]string]bool
 	unbalancedOrder [][2]string
 	opaque          map[string]bool
+
+	group *groupState // nil: single-package mode (see group.go)
 }
 
 func analyse(dir string) (*analyzer, error) {
@@ -211,11 +232,11 @@ func (a *analyzer) resolve(e ast.Expr) (callee, bool) {
 	case *ast.FuncLit:
 		return callee{lit: x}, true
 	case *ast.Ident:
-		if f, ok := a.info.Uses[x].(*types.Func); ok && f.Pkg() == a.pkg {
+		if f, ok := a.info.Uses[x].(*types.Func); ok && a.isOwn(f.Pkg()) {
 			return callee{fn: f}, true
 		}
 	case *ast.SelectorExpr:
-		if f, ok := a.info.Uses[x.Sel].(*types.Func); ok && f.Pkg() == a.pkg {
+		if f, ok := a.info.Uses[x.Sel].(*types.Func); ok && a.isOwn(f.Pkg()) {
 			return callee{fn: f}, true
 		}
 	}
@@ -355,6 +376,9 @@ func typeName(t types.Type) string {
 		break
 	}
 	if n, ok := t.(*types.Named); ok {
+		if qualifyNames && n.Obj().Pkg() != nil {
+			return n.Obj().Pkg().Name() + "." + n.Obj().Name()
+		}
 		return n.Obj().Name()
 	}
 	return t.String()
@@ -442,7 +466,7 @@ func (a *analyzer) lockOp(call *ast.CallExpr, fname string) (op, lock string) {
 		}
 	case *ast.Ident:
 		if v, ok := a.info.Uses[x].(*types.Var); ok {
-			if v.Parent() == a.pkg.Scope() {
+			if v.Parent() == a.pkg.Scope() || (a.group != nil && v.Pkg() != nil && v.Parent() == v.Pkg().Scope()) {
 				return sel.Sel.Name, "var." + v.Name()
 			}
 			return sel.Sel.Name, fname + "." + v.Name()
@@ -462,6 +486,9 @@ func (a *analyzer) calleeName(c callee) string {
 		sig := c.fn.Type().(*types.Signature)
 		if sig.Recv() != nil {
 			return typeName(sig.Recv().Type()) + "." + c.fn.Name()
+		}
+		if qualifyNames && c.fn.Pkg() != nil {
+			return c.fn.Pkg().Name() + "." + c.fn.Name()
 		}
 		return c.fn.Name()
 	}
@@ -496,6 +523,7 @@ type frame struct {
 	deferred []*ast.CallExpr
 	locals   map[*types.Var][]callee
 	exits    []heldSet
+	aliases  map[*types.Var][]string // group mode: local variable -> names of the mutex / channel it holds
 }
 
 func (a *analyzer) root(c callee) {
@@ -581,6 +609,9 @@ func (a *analyzer) stmt(s ast.Stmt, held heldSet, fr *frame) (heldSet, bool) {
 			if _, ok := l.(*ast.Ident); !ok {
 				held = a.expr(l, held, fr)
 			}
+		}
+		if a.group != nil {
+			a.groupAssign(x, fr)
 		}
 		if len(x.Lhs) == len(x.Rhs) {
 			for i, l := range x.Lhs {
@@ -668,6 +699,11 @@ func (a *analyzer) stmt(s ast.Stmt, held heldSet, fr *frame) (heldSet, bool) {
 		return out, false
 	case *ast.RangeStmt:
 		held = a.expr(x.X, held, fr)
+		if a.group != nil {
+			if h, ok := a.groupRange(x, held, fr); ok {
+				return h, false
+			}
+		}
 		out := held
 		for i := 0; i < 2; i++ {
 			h, t := a.block(x.Body.List, out.copy(), fr)
@@ -746,7 +782,11 @@ func (a *analyzer) expr(e ast.Expr, held heldSet, fr *frame) heldSet {
 	case *ast.StarExpr:
 		return a.expr(x.X, held, fr)
 	case *ast.UnaryExpr:
-		return a.expr(x.X, held, fr)
+		held = a.expr(x.X, held, fr)
+		if a.group != nil && x.Op == token.ARROW {
+			held = a.groupRecv(x, held, fr)
+		}
+		return held
 	case *ast.BinaryExpr:
 		held = a.expr(x.X, held, fr)
 		return a.expr(x.Y, held, fr)
@@ -809,6 +849,22 @@ func (a *analyzer) call(call *ast.CallExpr, held heldSet, fr *frame) heldSet {
 		held = a.expr(arg, held, fr)
 	}
 	// mutex operation?
+	if a.group != nil {
+		if op, locks := a.groupLockOp(call, fr); op != "" {
+			for _, lock := range locks {
+				switch op {
+				case "Lock", "RLock":
+					held = a.acquire(lock, held, fr, call.Pos(), true)
+				case "TryLock", "TryRLock":
+					held = a.acquire(lock, held, fr, call.Pos(), false)
+				default:
+					a.locks[lock] = true
+					delete(held, lock)
+				}
+			}
+			return held
+		}
+	}
 	if op, lock := a.lockOp(call, fr.name); op != "" && lock != "" {
 		switch op {
 		case "Lock", "RLock":
@@ -830,7 +886,7 @@ func (a *analyzer) call(call *ast.CallExpr, held heldSet, fr *frame) heldSet {
 	case *ast.Ident:
 		switch o := a.info.Uses[x].(type) {
 		case *types.Func:
-			if o.Pkg() == a.pkg {
+			if a.isOwn(o.Pkg()) {
 				targets, known = []callee{{fn: o}}, true
 			}
 		case *types.Var:
@@ -845,8 +901,10 @@ func (a *analyzer) call(call *ast.CallExpr, held heldSet, fr *frame) heldSet {
 	case *ast.SelectorExpr:
 		switch o := a.info.Uses[x.Sel].(type) {
 		case *types.Func:
-			if o.Pkg() == a.pkg {
-				if _, isIface := o.Type().(*types.Signature).Recv().Type().Underlying().(*types.Interface); !isIface {
+			if a.isOwn(o.Pkg()) {
+				if recv := o.Type().(*types.Signature).Recv(); recv == nil { // group mode: pkg.Func of another package of the group
+					targets, known = []callee{{fn: o}}, true
+				} else if _, isIface := recv.Type().Underlying().(*types.Interface); !isIface {
 					targets, known = []callee{{fn: o}}, true
 				}
 			}
@@ -854,6 +912,11 @@ func (a *analyzer) call(call *ast.CallExpr, held heldSet, fr *frame) heldSet {
 			if cs, ok := a.bindings[o]; ok && o.IsField() {
 				targets, known = cs, true
 			}
+		}
+	}
+	if !known && a.group != nil {
+		if cs, ok := a.groupTargets(call, fr); ok {
+			targets, known = cs, true
 		}
 	}
 	if known {
